@@ -3,6 +3,7 @@ INIT TInit
 NEXT TNext
 CONSTANTS
   MaxItems = 8
+  MinT = 0
   MaxT = 8
   MaxR = 8
   Kinds <- AllKinds
